@@ -22,7 +22,16 @@ class Sentences:
             return self.expr(self.user_ws.body, False, 2)[:6]
         return "".join(self.r.choice(WS5) for _ in range(1 if self.r.random() < 0.8 else 2))
 
+    size = 0  # characters emitted for the current sentence (budget: keeps nested closures from exploding)
+    LIMIT = 160
+
+    def sentence(self, name, depth):
+        self.size = 0
+        return self.rule(name, depth)
+
     def rule(self, name, depth):
+        if self.size > self.LIMIT:
+            depth = min(depth, -5)
         if name == "char":
             return self.r.choice(self.alphabet())
         r = self.g.rule(name)
@@ -76,8 +85,10 @@ class Sentences:
             s = e.s
             if e.insens:
                 s = "".join(c.upper() if r.random() < 0.5 else c.lower() for c in s)
+            self.size += len(s) + 1
             return self.ws(sk) + s
         if isinstance(e, Rng):
+            self.size += 1
             return self.ws(sk) + self.in_range(e.a, e.b)
         if isinstance(e, Eoi):
             return self.ws(sk) if r.random() < 0.3 else ""
@@ -89,9 +100,9 @@ class Sentences:
         if isinstance(e, Grp):
             return self.expr(e.body, sk, depth)
         if isinstance(e, Opt):
-            return self.expr(e.body, sk, depth) if (depth > 0 and r.random() < 0.5) else ""
+            return self.expr(e.body, sk, depth) if (depth > 0 and self.size <= self.LIMIT and r.random() < 0.5) else ""
         if isinstance(e, Clo):
-            n = r.choice([0, 1, 1, 2, 3]) if depth > 0 else 0
+            n = r.choice([0, 1, 1, 2, 3]) if (depth > 0 and self.size <= self.LIMIT) else 0
             if e.plus:
                 n = max(1, n)
             return "".join(self.expr(e.body, sk, depth - 1) for _ in range(n))
@@ -214,7 +225,7 @@ def inputs_for(g: Grammar, rule: str, rnd: random.Random, n_sent=10, n_total=40,
     add("")
     sents = []
     for _ in range(n_sent):
-        s = sg.rule(rule, rnd.randint(2, 4))
+        s = sg.sentence(rule, rnd.randint(2, 4))
         sents.append(s)
         add(s)
     # prefixes
